@@ -80,13 +80,26 @@ Definition find_foreign (l : list (N * N * bool)) (tx rid : N) : option bool :=
 
 (* index answers must equal the filter over the scan; a wrong answer through an index created inside an open
    transaction is the known class 1, anything else a violation.  Returns None = violation, Some known-hit *)
+(* the oracle reads conditions on the observed (id, (a, b)) triples; column 2 is the system column `_id`
+   (the model has columns 0 and 1 only: cases with an index or a condition on `_id` are judged by this oracle alone) *)
+Definition valo (col rid a b : N) : N := if N.eqb col 0 then a else if N.eqb col 1 then b else rid.
+Fixpoint evalo (c : cond) (rid a b : N) : bool :=
+  match c with
+  | CTrue => true
+  | CEq col v => N.eqb (valo col rid a b) v
+  | CLt col v => N.ltb (valo col rid a b) v
+  | CGe col v => N.leb v (valo col rid a b)
+  | CAnd x y => evalo x rid a b && evalo y rid a b
+  end.
+Definition evalo_row (c : cond) (ir : N * (N * N)) : bool := evalo c (fst ir) (fst (snd ir)) (snd (snd ir)).
+
 Definition cond_col (c : cond) : N * bool := (* column, is_btree *)
   match c with CEq col _ => (col, false) | CLt col _ => (col, true) | CGe col _ => (col, true) | _ => (0, false) end.
 Fixpoint index_check (o : ost) (rws : list (N * (N * N))) (qs : list cond) (ans : list (list N)) (hit : bool) : option bool :=
   match qs, ans with
   | [], [] => Some hit
   | c :: qs', a :: ans' =>
-      let want := map fst (filter (fun ir => evalc c (R true (fst (snd ir)) (snd (snd ir)))) rws) in
+      let want := map fst (filter (evalo_row c) rws) in
       if lN_eqb want a then index_check o rws qs' ans' hit
       else let '(col, bt) := cond_col c in
            if mem col (if bt then o_ddlb o else o_ddlh o) then index_check o rws qs' ans' true
@@ -155,12 +168,15 @@ Fixpoint on_rollback (tx : N) (pre post : dump) (ids : list N) (o : ost) : optio
       end
   end.
 
+(* a refused call takes and drops no lock: the holders read back are the same *)
+Definition holders_same (pre post : dump) : bool := list_eqb oN_eqb (d_holders pre) (d_holders post) && N.eqb (d_nlocks pre) (d_nlocks post).
+
 Definition ok_ret (ret : list N) : bool := match ret with 0 :: _ => true | _ => false end.
 
 (* rows a successful update / delete matched (and therefore locked and logged), whether or not their values moved *)
 Definition matched_ids (op : rop) (pre : dump) : list N :=
   match op with
-  | RUpdate _ c _ _ | RDelete _ c => map fst (filter (fun ir => evalc c (R true (fst (snd ir)) (snd (snd ir)))) (d_rows pre))
+  | RUpdate _ c _ _ | RDelete _ c => map fst (filter (evalo_row c) (d_rows pre))
   | _ => []
   end.
 Definition touch_more (tx : N) (pre : dump) (ids : list N) (o : ost) : ost :=
@@ -173,7 +189,7 @@ Definition touch_more (tx : N) (pre : dump) (ids : list N) (o : ost) : ost :=
                  (o_foreign o) (o_ddlh o) (o_ddlb o) (o_now o) (o_known o) (o_broken o)
     end) ids o.
 
-Definition ostep (bud : bool) (V ltmo : N) (o : ost) (op : rop) (ret : list N) (pre post : dump) : option ost :=
+Definition ostep (bud : bool) (qs : list cond) (ltmo : N) (o : ost) (op : rop) (ret : list N) (pre post : dump) : option ost :=
   let ch := changed pre post in
   let o1 :=
     match op with
@@ -187,7 +203,7 @@ Definition ostep (bud : bool) (V ltmo : N) (o : ost) (op : rop) (ret : list N) (
             (* [6] = the statement failed half-way (B-tree entry budget): what it did so far belongs to tx and must go
                away when tx is rolled back; until then tx is "broken" *)
             else if lN_eqb ret [6] then option_map (fun o' => break (touch_more tx pre (matched_ids op pre) o') tx) (on_changes ltmo (Some tx) pre ch o)
-            else if is_nil ch then Some o else None        (* a refused statement changes nothing *)
+            else if is_nil ch && holders_same pre post then Some o else None        (* a refused statement changes nothing: no row, no lock *)
         (* outside a transaction a failed statement is rolled back internally: nothing may remain of it *)
         | None => if ok_ret ret then on_changes ltmo None pre ch o else if is_nil ch then Some o else None
         end
@@ -202,11 +218,10 @@ Definition ostep (bud : bool) (V ltmo : N) (o : ost) (op : rop) (ret : list N) (
              | _ => if negb (none_held tx post) then None
                     else match on_rollback tx pre post (all_ids pre post) o with
                          | Some o' =>
-                             (* with a small B-tree entry budget the undo itself can run out of entries when other writers
-                                used up what the transaction had freed: rollback then reports RollbackFailed and cannot
-                                re-create the row's B-tree entries (known class 2); the ROWS must be restored all the same *)
-                             if bud && lN_eqb ret [3] then Some (add_known (break (finish o' tx) 0) 2)
-                             else Some (unbreak (finish o' tx) tx)
+                             (* also with a small B-tree entry budget: the undo re-adds the entries the transaction removed
+                                whatever the budget says (relational_engine commit 318ccde5), so after the rollback rows AND
+                                index answers are back *)
+                             Some (unbreak (finish o' tx) tx)
                          | None => None
                          end
              end
@@ -225,18 +240,18 @@ Definition ostep (bud : bool) (V ltmo : N) (o : ost) (op : rop) (ret : list N) (
   | None => None
   | Some o2 =>
       if negb (is_nil (o_broken o2)) then Some o2 else
-      match index_check o2 (d_rows post) (queries V) (d_q post) false with
+      match index_check o2 (d_rows post) qs (d_q post) false with
       | None => None
       | Some true => Some (add_known o2 1)
       | Some false => Some o2
       end
   end.
 
-Fixpoint owalk (bud : bool) (V ltmo : N) (o : ost) (ops : list rop) (os : list obs) (pre : dump) : option ost :=
+Fixpoint owalk (bud : bool) (qs : list cond) (ltmo : N) (o : ost) (ops : list rop) (os : list obs) (pre : dump) : option ost :=
   match ops, os with
   | op :: ops', (ret, post) :: os' =>
-      match ostep bud V ltmo o op ret pre post with
-      | Some o' => owalk bud V ltmo o' ops' os' post
+      match ostep bud qs ltmo o op ret pre post with
+      | Some o' => owalk bud qs ltmo o' ops' os' post
       | None => None
       end
   | _, _ => Some o
@@ -248,7 +263,7 @@ Definition check_rel (c : c09_case) : N :=
   let '(V, Rn, ltmo0, ops, os) := c in
   let e0 := einit ltmo0 in
   if negb (Nat.eqb (length ops) (length os)) then 9
-  else match owalk false V ltmo0 o0 ops os (model_dump V Rn e0) with
+  else match owalk false (queries V) ltmo0 o0 ops os (model_dump V Rn e0) with
        | None => V_VIOLATION
        | Some o =>
            if negb (model_ok V Rn e0 ops os) then V_MISMATCH
@@ -263,7 +278,21 @@ Definition check_rel (c : c09_case) : N :=
 Definition check_budget (c : c09_case) : N :=
   let '(V, Rn, ltmo0, ops, os) := c in
   if negb (Nat.eqb (length ops) (length os)) then 9
-  else match owalk true V ltmo0 o0 ops os (model_dump V Rn (einit ltmo0)) with
+  else match owalk true (queries V) ltmo0 o0 ops os (model_dump V Rn (einit ltmo0)) with
+       | None => V_VIOLATION
+       | Some o => match o_known o with [] => V_OK | k :: _ => V_KNOWN (fold_left N.min (o_known o) k) end
+       end.
+
+(* cases with hash / B-tree indexes and conditions on the system column `_id` (column 2; the model's rows have
+   columns 0 and 1 only): judged by the property oracle on the implementation's observations; the query list is
+   extended by Eq / Lt / Ge on `_id` for the ids 1..5 *)
+Definition id_vals : list N := [1; 2; 3; 4; 5].
+Definition queries_id (V : N) : list cond :=
+  queries V ++ map (CEq 2) id_vals ++ map (CLt 2) id_vals ++ map (CGe 2) id_vals.
+Definition check_idcol (c : c09_case) : N :=
+  let '(V, Rn, ltmo0, ops, os) := c in
+  if negb (Nat.eqb (length ops) (length os)) then 9
+  else match owalk false (queries_id V) ltmo0 o0 ops os (model_dump V Rn (einit ltmo0)) with
        | None => V_VIOLATION
        | Some o => match o_known o with [] => V_OK | k :: _ => V_KNOWN (fold_left N.min (o_known o) k) end
        end.
